@@ -194,10 +194,18 @@ def handleC08 : List String → String
   | ["sess", v, script] =>
     match c08ver v, (script.splitOn ";").mapM parseItem with
     | some v, some items =>
-      let dom := items.all fun it => match it with
+      -- `noEarlyFire` tries every prefix (quadratic): hypotheses of messages beyond 2600 bytes are not
+      -- evaluated, the session then counts as outside the theorems' domain (reason `big`); the
+      -- model run and the server-side oracle still apply to it
+      let big := fun (it : Item) => match it with
+        | .dlv d => decide (d.burst.bytes.length > 2600)
+        | .dlv2 d => decide (d.burst.bytes.length > 2600)
+        | _ => false
+      let dom := items.all fun it => !big it && match it with
         | .dlv d => d.valid v | .dlv2 d => d.valid v | .ev (.read _) => false | .reset => false | _ => true
       let rs := items.filterMap fun it => match it with
-        | .dlv d => some (deliveryReason v d) | .dlv2 d => some (delivery2Reason v d) | _ => none
+        | .dlv d => some (if big it then "big" else deliveryReason v d)
+        | .dlv2 d => some (if big it then "big" else delivery2Reason v d) | _ => none
       let sc := srun v sinit (items.flatMap subEvents)
       let reasons := if rs.isEmpty then "." else ",".intercalate rs
       let c := (items.foldl (runItem v) tinit).c
